@@ -517,7 +517,9 @@ func routingOracle(s *Sim, cl *Cluster, ttl, maxLat time.Duration, moves, downAt
 		if leaderOf != nil {
 			// (a client that has never received any metadata has nothing that
 			// designates a broker: it falls back to its bootstrap address)
-			hadMetadata := len(snaps) > 0 && snaps[0].at <= r.At
+			// (nor one whose request was routed, then dialled and handshaken,
+			// just before the first metadata arrived)
+			hadMetadata := len(snaps) > 0 && snaps[0].at <= r.At-6*maxLat-20*time.Millisecond
 			// (a broker going down in that period may have taken the
 			// connection the metadata is refreshed over with it: the refresh is
 			// then late by a dial, a back-off and possibly a dial time-out)
